@@ -575,3 +575,487 @@ Proof.
       rewrite (pres_absv s3 s5 (VPtr d) P5 T3). exact A3.
   - cbn [with_heap st]. rewrite Hx5. cbn [s4 with_sp with_stack st]. rewrite Hx3. reflexivity.
 Qed.
+
+(* ------------------------------------------------ overwriting the fields of a pair *)
+Lemma heap_set_spec h p v h'' :
+  heap_set h p v = Ok h'' ->
+  p < hlen h /\ hlen h'' = hlen h /\ free_list h'' = free_list h /\ chunk h'' = chunk h /\
+  heap_get h'' p = Ok v /\ (forall q, q <> p -> heap_get h'' q = heap_get h q) /\
+  (forall q, q <> p -> tget (cells h'') q = tget (cells h) q).
+Proof.
+  unfold heap_set. destruct (p <? hlen h) eqn:E; [|discriminate]. intros [= <-].
+  apply N.ltb_lt in E. cbn [hlen free_list chunk cells].
+  repeat apply conj; try reflexivity; try assumption.
+  - unfold heap_get; cbn [hlen cells]. apply N.ltb_lt in E. rewrite E. now rewrite tget_tset_same.
+  - intros q Hne. unfold heap_get; cbn [hlen cells]. rewrite tget_tset_other by congruence. reflexivity.
+  - intros q Hne. rewrite tget_tset_other by congruence. reflexivity.
+Qed.
+
+Lemma set_pair_fields t p a d a' d' h'' :
+  values_are_refs t -> heap_get (hp t) p = Ok (VPair a d) ->
+  target_ok t a' -> target_ok t d' ->
+  heap_set (hp t) p (VPair a' d') = Ok h'' ->
+  values_are_refs (with_heap t h'') /\
+  (forall v, absv (with_heap t h'') v = absv t v) /\
+  (forall v, val_ok t v -> val_ok (with_heap t h'') v) /\
+  a_pair (abs (with_heap t h'')) p = Some (absv t (VPtr a'), absv t (VPtr d')) /\
+  (forall q, q <> p -> a_pair (abs (with_heap t h'')) q = a_pair (abs t) q) /\
+  (forall vid, a_vec (abs (with_heap t h'')) vid = a_vec (abs t) vid).
+Proof.
+  intros W Hg Ta Td Hs.
+  destruct (heap_set_spec _ _ _ _ Hs) as (Hlt & Hlen & Hfl & Hch & Hgp & Hgo & Hco).
+  pose proof W as (Hok & Hpairs & Hvecs & Hvc & Hid).
+  set (t' := with_heap t h'').
+  assert (Hlive : forall q, live h'' q <-> live (hp t) q).
+  { intros q. unfold live. rewrite Hlen, Hfl. tauto. }
+  assert (Hplive : live (hp t) p) by (eapply nonblank_live; eauto; discriminate).
+  assert (Habsv : forall v, absv t' v = absv t v).
+  { intros v. destruct v; cbn [absv t' with_heap hp]; try reflexivity.
+    destruct (N.eq_dec p0 p) as [->|Hne]; [now rewrite Hgp, Hg | now rewrite Hgo]. }
+  assert (Htgt : forall q, target_ok t q -> target_ok t' q).
+  { intros q (Hl & c & Hc & Hd). split; [cbn [t' with_heap hp]; now apply Hlive|].
+    cbn [t' with_heap hp]. destruct (N.eq_dec q p) as [->|Hne].
+    - exists (VPair a' d'). split; [exact Hgp | exact I].
+    - exists c. rewrite Hgo by assumption. auto. }
+  assert (Hval : forall v, val_ok t v -> val_ok t' v).
+  { intros v. destruct v; cbn [val_ok]; auto. }
+  refine (conj _ (conj Habsv (conj Hval (conj _ (conj _ _))))).
+  - unfold values_are_refs; refine (conj _ (conj _ (conj _ (conj _ _)))); cbn [t' with_heap hp st].
+    + destruct Hok as (H1 & H2 & H3 & H4 & H5).
+      unfold heap_ok. rewrite Hlen, Hfl, Hch. refine (conj H1 (conj H2 (conj H3 (conj H4 _)))).
+      intros q Hq. unfold blank. rewrite Hco.
+      * apply H5. intros Hl. apply Hq. now apply Hlive.
+      * intros ->. apply Hq. now apply Hlive.
+    + intros q x y Hq. destruct (N.eq_dec q p) as [->|Hne].
+      * rewrite Hgp in Hq. injection Hq as <- <-. split; apply Htgt; assumption.
+      * rewrite Hgo in Hq by assumption. destruct (Hpairs _ _ _ Hq). split; apply Htgt; assumption.
+    + intros vid l Hl. specialize (Hvecs _ _ Hl). eapply Forall_impl; [|exact Hvecs]. exact Hval.
+    + intros q vid Hq. destruct (N.eq_dec q p) as [->|Hne].
+      * rewrite Hgp in Hq. discriminate.
+      * rewrite Hgo in Hq by assumption. eauto.
+    + exact Hid.
+  - cbn [abs a_pair t' with_heap hp]. rewrite Hgp. fold t'. now rewrite !Habsv.
+  - intros q Hne. cbn [abs a_pair t' with_heap hp]. rewrite Hgo by assumption. fold t'.
+    destruct (heap_get (hp t) q) as [c| | |]; try reflexivity. destruct c; try reflexivity.
+    now rewrite !Habsv.
+  - intros vid. cbn [abs a_vec t' with_heap st]. destruct (tget (vecs (st t)) vid); [|reflexivity].
+    f_equal. apply map_ext. exact Habsv.
+Qed.
+
+Lemma pres_deref s s' v : pres s s' -> val_ok s v -> heap_deref (hp s') v = heap_deref (hp s) v.
+Proof.
+  intros (_ & A2 & _). destruct v; cbn [val_ok heap_deref]; try reflexivity; try contradiction.
+  intros (Hl & _). auto.
+Qed.
+
+Lemma heap_set_ok h p v : p < hlen h -> exists h'', heap_set h p v = Ok h''.
+Proof. intros H. unfold heap_set. apply N.ltb_lt in H. rewrite H. eauto. Qed.
+
+Theorem set_car_refines s pv o :
+  values_are_refs s -> val_ok s pv -> val_ok s o -> called_with s [pv; o] ->
+  match absv s pv with
+  | ALoc (LPair p) =>
+      exists x d s', a_pair (abs s) p = Some (x, d) /\ set_car s = ROk VVoid s' /\
+        a_pair (abs s') p = Some (absv s o, d) /\
+        (forall q, q <> p -> live (hp s) q -> a_pair (abs s') q = a_pair (abs s) q) /\
+        (forall vid l, tget (vecs (st s)) vid = Some l -> a_vec (abs s') vid = a_vec (abs s) vid) /\
+        (forall v, val_ok s v -> val_ok s' v /\ absv s' v = absv s v) /\
+        values_are_refs s'
+  | _ => exists s', set_car s = RErr E_OTHER [] s'
+  end.
+Proof.
+  intros W Hpv Ho H. unfold called_with in H. cbn [len length rev app N.of_nat Pos.of_succ_nat] in H.
+  set (s1 := with_sp s (sp s - 1)).
+  set (s2 := with_sp s1 (sp s1 - 1)).
+  pose proof (stack_top_tail _ _ _ _ H) as H1.
+  pose proof (stack_top_tail _ _ _ _ H1) as H2.
+  destruct (hput_val s2 o W Ho) as (op & s3 & E3 & P3 & W3 & T3 & A3 & Hst3 & Hsp3 & Hx3).
+  set (s4 := with_sp s3 (sp s3 - 1)).
+  assert (Hrun : set_car s =
+    bindM (fun s0 => lift (heap_deref (hp s0) pv) s0)
+      (fun pv0 => match pv0 with
+                  | VPair _ d => dom op0 <- as_ptr (VPtr op); dom pp <- as_ptr pv;
+                                 dom _ <- hset pp (VPair op0 d); ret VVoid
+                  | _ => fail E_OTHER end) s4).
+  { unfold set_car. pop_argc_tac H s 2 2 (Some 2).
+    fold s1. rewrite (bind_ok _ _ _ _ _ (pop_raw_top s1 o _ H1)). fold s2.
+    rewrite (bind_ok _ _ _ _ _ E3).
+    assert (H2' : stack_top (stack s3) (sp s3) [pv]) by (rewrite Hst3, Hsp3; exact H2).
+    rewrite (bind_ok _ _ _ _ _ (pop_raw_top s3 pv _ H2')). fold s4. reflexivity. }
+  assert (Hd : heap_deref (hp s4) pv = heap_deref (hp s) pv) by (apply (pres_deref s s3 pv P3 Hpv)).
+  destruct (absv s pv) as [w|l|] eqn:Ea.
+  2: destruct l as [p| | |].
+  2: { destruct (deref_pair _ _ _ Ea) as (-> & a & d & Hg).
+       assert (Hg3 : heap_get (hp s3) p = Ok (VPair a d)) by (rewrite <- Hg; exact Hd).
+       destruct (heap_set_ok (hp s3) p (VPair op d) (heap_get_lt _ _ _ Hg3)) as (h'' & Hs).
+       pose proof W3 as (_ & Hpairs3 & _). destruct (Hpairs3 _ _ _ Hg3) as (Ta3 & Td3).
+       destruct (set_pair_fields s4 p a d op d h'' W3 Hg3 T3 Td3 Hs) as (W' & Habsv & Hval & Hpp & Hpo & Hvo).
+       pose proof W as (_ & Hpairs & _). destruct (Hpairs _ _ _ Hg) as (Ta & Td).
+       exists (absv s (VPtr a)), (absv s (VPtr d)), (with_heap s4 h'').
+       refine (conj _ (conj _ (conj _ (conj _ (conj _ (conj _ W')))))).
+       - cbn [abs a_pair]. now rewrite Hg.
+       - rewrite Hrun. unfold bindM at 1, lift. rewrite Hd. cbn [heap_deref]. rewrite Hg.
+         cbn [as_ptr]. unfold bindM, ret, hset. cbn [s4 with_sp with_stack hp] in *. rewrite Hs. reflexivity.
+       - rewrite Hpp. f_equal. f_equal; [exact A3|]. apply (pres_absv s s3 (VPtr d) P3 Td).
+       - intros q Hne Hq. rewrite Hpo by assumption. apply (pres_a_pair s s3 q W P3 Hq).
+       - intros vid l Hl. rewrite Hvo. apply (pres_a_vec s s3 vid l W P3 Hl).
+       - intros v Hv. split.
+         + apply Hval. apply (pres_val_ok s s3 v P3 Hv).
+         + rewrite Habsv. apply (pres_absv s s3 v P3 Hv). }
+  all: destruct (deref_not_pair s pv Hpv) as (c & Hc & Hp); [intros q0; rewrite Ea; discriminate|];
+    exists s4; rewrite Hrun; unfold bindM, lift; rewrite Hd, Hc;
+    destruct c; try discriminate Hp; reflexivity.
+Qed.
+
+Theorem set_cdr_refines s pv o :
+  values_are_refs s -> val_ok s pv -> val_ok s o -> called_with s [pv; o] ->
+  match absv s pv with
+  | ALoc (LPair p) =>
+      exists x d s', a_pair (abs s) p = Some (x, d) /\ set_cdr s = ROk VVoid s' /\
+        a_pair (abs s') p = Some (x, absv s o) /\
+        (forall q, q <> p -> live (hp s) q -> a_pair (abs s') q = a_pair (abs s) q) /\
+        (forall vid l, tget (vecs (st s)) vid = Some l -> a_vec (abs s') vid = a_vec (abs s) vid) /\
+        (forall v, val_ok s v -> val_ok s' v /\ absv s' v = absv s v) /\
+        values_are_refs s'
+  | _ => exists s', set_cdr s = RErr E_OTHER [] s'
+  end.
+Proof.
+  intros W Hpv Ho H. unfold called_with in H. cbn [len length rev app N.of_nat Pos.of_succ_nat] in H.
+  set (s1 := with_sp s (sp s - 1)).
+  set (s2 := with_sp s1 (sp s1 - 1)).
+  pose proof (stack_top_tail _ _ _ _ H) as H1.
+  pose proof (stack_top_tail _ _ _ _ H1) as H2.
+  destruct (hput_val s2 o W Ho) as (op & s3 & E3 & P3 & W3 & T3 & A3 & Hst3 & Hsp3 & Hx3).
+  set (s4 := with_sp s3 (sp s3 - 1)).
+  assert (Hrun : set_cdr s =
+    bindM (fun s0 => lift (heap_deref (hp s0) pv) s0)
+      (fun pv0 => match pv0 with
+                  | VPair a _ => dom op0 <- as_ptr (VPtr op); dom pp <- as_ptr pv;
+                                 dom _ <- hset pp (VPair a op0); ret VVoid
+                  | _ => fail E_OTHER end) s4).
+  { unfold set_cdr. pop_argc_tac H s 2 2 (Some 2).
+    fold s1. rewrite (bind_ok _ _ _ _ _ (pop_raw_top s1 o _ H1)). fold s2.
+    rewrite (bind_ok _ _ _ _ _ E3).
+    assert (H2' : stack_top (stack s3) (sp s3) [pv]) by (rewrite Hst3, Hsp3; exact H2).
+    rewrite (bind_ok _ _ _ _ _ (pop_raw_top s3 pv _ H2')). fold s4. reflexivity. }
+  assert (Hd : heap_deref (hp s4) pv = heap_deref (hp s) pv) by (apply (pres_deref s s3 pv P3 Hpv)).
+  destruct (absv s pv) as [w|l|] eqn:Ea.
+  2: destruct l as [p| | |].
+  2: { destruct (deref_pair _ _ _ Ea) as (-> & a & d & Hg).
+       assert (Hg3 : heap_get (hp s3) p = Ok (VPair a d)) by (rewrite <- Hg; exact Hd).
+       destruct (heap_set_ok (hp s3) p (VPair a op) (heap_get_lt _ _ _ Hg3)) as (h'' & Hs).
+       pose proof W3 as (_ & Hpairs3 & _). destruct (Hpairs3 _ _ _ Hg3) as (Ta3 & Td3).
+       destruct (set_pair_fields s4 p a d a op h'' W3 Hg3 Ta3 T3 Hs) as (W' & Habsv & Hval & Hpp & Hpo & Hvo).
+       pose proof W as (_ & Hpairs & _). destruct (Hpairs _ _ _ Hg) as (Ta & Td).
+       exists (absv s (VPtr a)), (absv s (VPtr d)), (with_heap s4 h'').
+       refine (conj _ (conj _ (conj _ (conj _ (conj _ (conj _ W')))))).
+       - cbn [abs a_pair]. now rewrite Hg.
+       - rewrite Hrun. unfold bindM at 1, lift. rewrite Hd. cbn [heap_deref]. rewrite Hg.
+         cbn [as_ptr]. unfold bindM, ret, hset. cbn [s4 with_sp with_stack hp] in *. rewrite Hs. reflexivity.
+       - rewrite Hpp. f_equal. f_equal; [|exact A3]. apply (pres_absv s s3 (VPtr a) P3 Ta).
+       - intros q Hne Hq. rewrite Hpo by assumption. apply (pres_a_pair s s3 q W P3 Hq).
+       - intros vid l Hl. rewrite Hvo. apply (pres_a_vec s s3 vid l W P3 Hl).
+       - intros v Hv. split.
+         + apply Hval. apply (pres_val_ok s s3 v P3 Hv).
+         + rewrite Habsv. apply (pres_absv s s3 v P3 Hv). }
+  all: destruct (deref_not_pair s pv Hpv) as (c & Hc & Hp); [intros q0; rewrite Ea; discriminate|];
+    exists s4; rewrite Hrun; unfold bindM, lift; rewrite Hd, Hc;
+    destruct c; try discriminate Hp; reflexivity.
+Qed.
+
+(* ================================================================== vectors *)
+Definition aindex (x : aval) : option N :=
+  match x with AImm (VNum n) => num_to_usize n | _ => None end.
+
+Lemma val_deref s v :
+  val_ok s v -> exists c, heap_deref (hp s) v = Ok c /\
+    absv s v = match v with VPtr p => cell_val p c | _ => AImm c end /\ data_cell c.
+Proof.
+  destruct v; cbn [val_ok]; try contradiction; try (intros _; eexists; repeat split; reflexivity).
+  intros (_ & c & Hc & Hd). exists c. cbn [heap_deref absv]. rewrite Hc. auto.
+Qed.
+
+Lemma pop_index_spec s v r :
+  val_ok s v -> stack_top (stack s) (sp s) (v :: r) ->
+  pop_index s = match aindex (absv s v) with
+                | Some i => ROk i (with_sp s (sp s - 1))
+                | None => RErr E_OTHER [] (with_sp s (sp s - 1))
+                end.
+Proof.
+  intros Hv H. unfold pop_index, bindM. rewrite (pop_value_top s v r H). unfold lift.
+  destruct (val_deref s v Hv) as (c & Hc & Ha & Hd). rewrite Hc, Ha.
+  destruct v; cbn [val_ok] in Hv; try contradiction;
+    try (cbn [heap_deref] in Hc; injection Hc as <-; cbn [aindex];
+         try reflexivity; destruct (num_to_usize n); reflexivity).
+  destruct c; cbn [cell_val aindex data_cell] in *; try contradiction; try reflexivity.
+  destruct (num_to_usize n); reflexivity.
+Qed.
+
+Lemma pop_vector_spec s v r :
+  val_ok s v -> stack_top (stack s) (sp s) (v :: r) ->
+  pop_vector s = match absv s v with
+                 | ALoc (LVec vid) => ROk vid (with_sp s (sp s - 1))
+                 | _ => RErr E_OTHER [] (with_sp s (sp s - 1))
+                 end.
+Proof.
+  intros Hv H. unfold pop_vector, bindM. rewrite (pop_value_top s v r H). unfold lift.
+  destruct (val_deref s v Hv) as (c & Hc & Ha & Hd). rewrite Hc, Ha.
+  destruct v; cbn [val_ok] in Hv; try contradiction;
+    try (cbn [heap_deref] in Hc; injection Hc as <-; reflexivity).
+  destruct c; cbn [cell_val data_cell] in *; try contradiction; reflexivity.
+Qed.
+
+Lemma vec_registered s v vid :
+  values_are_refs s -> absv s v = ALoc (LVec vid) ->
+  exists l, tget (vecs (st s)) vid = Some l /\ a_vec (abs s) vid = Some (map (absv s) l) /\
+            Forall (val_ok s) l.
+Proof.
+  intros (_ & _ & Hvecs & Hvc & _) Ha.
+  destruct v; cbn [absv] in Ha; try discriminate.
+  destruct (heap_get (hp s) p) as [c| | |] eqn:E; try discriminate.
+  destruct c; cbn [cell_val] in Ha; try discriminate. injection Ha as ->.
+  specialize (Hvc _ _ E). destruct (tget (vecs (st s)) vid) as [l|] eqn:El; [|contradiction].
+  exists l. repeat split; [|eauto]. cbn [abs a_vec]. now rewrite El.
+Qed.
+
+Lemma vget_nth l i : vget l i = nth_error l (N.to_nat i).
+Proof.
+  unfold vget, len. destruct (i <? N.of_nat (length l)) eqn:E.
+  - destruct l; reflexivity.
+  - symmetry. apply nth_error_None. apply N.ltb_ge in E. lia.
+Qed.
+
+Lemma vec_get_ok s vid l : tget (vecs (st s)) vid = Some l -> vec_get vid s = ROk l s.
+Proof. intros H. unfold vec_get. now rewrite H. Qed.
+
+Theorem vector_length_refines s v :
+  values_are_refs s -> val_ok s v -> called_with s [v] ->
+  match absv s v with
+  | ALoc (LVec vid) =>
+      exists xs s', a_vec (abs s) vid = Some xs /\
+        vector_length s = ROk (VNum (Fixnum (Z.of_nat (length xs)))) s' /\ hp s' = hp s /\ st s' = st s
+  | _ => exists s', vector_length s = RErr E_OTHER [] s'
+  end.
+Proof.
+  intros W Hv H. unfold called_with in H. cbn [len length rev app N.of_nat Pos.of_succ_nat] in H.
+  set (s1 := with_sp s (sp s - 1)).
+  pose proof (stack_top_tail _ _ _ _ H) as H1.
+  assert (Hrun : vector_length s =
+     match absv s v with
+     | ALoc (LVec vid) => (dom l <- vec_get vid; ret (VNum (Fixnum (Z.of_N (len l))))) (with_sp s1 (sp s1 - 1))
+     | _ => RErr E_OTHER [] (with_sp s1 (sp s1 - 1))
+     end).
+  { unfold vector_length. pop_argc_tac H s 1 1 (Some 1). fold s1.
+    unfold bindM at 1. rewrite (pop_vector_spec s1 v [] Hv H1). change (absv s1 v) with (absv s v).
+    destruct (absv s v) as [w|l|]; try reflexivity. destruct l; reflexivity. }
+  rewrite Hrun.
+  destruct (absv s v) as [w|l|] eqn:Ea; try (eexists; reflexivity).
+  destruct l as [p|vid|sid|p]; try (eexists; reflexivity).
+  destruct (vec_registered s v vid W Ea) as (l & Hl & Hal & _).
+  exists (map (absv s) l), (with_sp s1 (sp s1 - 1)). repeat apply conj; try reflexivity; [exact Hal|].
+  rewrite (bind_ok _ _ _ _ _ (vec_get_ok (with_sp s1 (sp s1 - 1)) vid l Hl)).
+  unfold ret. rewrite map_length. unfold len. now rewrite nat_N_Z.
+Qed.
+
+Theorem vector_ref_refines s v k :
+  values_are_refs s -> val_ok s v -> val_ok s k -> called_with s [v; k] ->
+  match absv s v with
+  | ALoc (LVec vid) =>
+      exists xs, a_vec (abs s) vid = Some xs /\
+        match aindex (absv s k) with
+        | Some i =>
+            match nth_error xs (N.to_nat i) with
+            | Some x => exists r s', vector_ref s = ROk r s' /\ absv s' r = x /\ val_ok s' r /\
+                                     hp s' = hp s /\ st s' = st s
+            | None => exists s', vector_ref s = RErr E_OTHER [] s'      (* index out of range *)
+            end
+        | None => exists s', vector_ref s = RErr E_OTHER [] s'          (* not an index *)
+        end
+  | _ => exists s', vector_ref s = RErr E_OTHER [] s'
+  end.
+Proof.
+  intros W Hv Hk H. unfold called_with in H. cbn [len length rev app N.of_nat Pos.of_succ_nat] in H.
+  set (s1 := with_sp s (sp s - 1)).
+  set (s2 := with_sp s1 (sp s1 - 1)).
+  set (s3 := with_sp s2 (sp s2 - 1)).
+  pose proof (stack_top_tail _ _ _ _ H) as H1.
+  pose proof (stack_top_tail _ _ _ _ H1) as H2.
+  assert (Hrun : vector_ref s =
+    match aindex (absv s k) with
+    | Some idx =>
+        match absv s v with
+        | ALoc (LVec vid) =>
+            (dom l <- vec_get vid; match vget l idx with Some v0 => ret v0 | None => fail E_OTHER end) s3
+        | _ => RErr E_OTHER [] s3
+        end
+    | None => RErr E_OTHER [] s2
+    end).
+  { unfold vector_ref. pop_argc_tac H s 2 2 (Some 2). fold s1.
+    unfold bindM at 1. rewrite (pop_index_spec s1 k _ Hk H1). change (absv s1 k) with (absv s k).
+    destruct (aindex (absv s k)) as [i|]; [|reflexivity]. fold s2.
+    unfold bindM at 1. rewrite (pop_vector_spec s2 v [] Hv H2). change (absv s2 v) with (absv s v).
+    destruct (absv s v) as [w|l|]; try reflexivity. destruct l; reflexivity. }
+  rewrite Hrun.
+  destruct (absv s v) as [w|l|] eqn:Ea.
+  1,3: destruct (aindex (absv s k)); eexists; reflexivity.
+  destruct l as [p|vid|sid|p].
+  1,3,4: destruct (aindex (absv s k)); eexists; reflexivity.
+  destruct (vec_registered s v vid W Ea) as (l & Hl & Hal & Hfl).
+  exists (map (absv s) l). split; [exact Hal|].
+  destruct (aindex (absv s k)) as [i|]; [|eexists; reflexivity].
+  rewrite (bind_ok _ _ _ _ _ (vec_get_ok s3 vid l Hl)).
+  rewrite vget_nth, nth_error_map.
+  destruct (nth_error l (N.to_nat i)) as [x|] eqn:En; cbn [option_map]; [|eexists; reflexivity].
+  exists x, s3. repeat apply conj; try reflexivity.
+  rewrite Forall_forall in Hfl. apply Hfl. eapply nth_error_In; eauto.
+Qed.
+
+Lemma target_ok_hp s s' p : hp s' = hp s -> target_ok s p -> target_ok s' p.
+Proof. intros E (Hl & c & Hc & Hd). unfold target_ok. rewrite E. eauto. Qed.
+Lemma val_ok_hp s s' v : hp s' = hp s -> val_ok s v -> val_ok s' v.
+Proof. intros E. destruct v; cbn [val_ok]; auto. now apply target_ok_hp. Qed.
+
+(* replacing the contents of one vector *)
+Lemma set_vec_fields t vid l l' :
+  values_are_refs t -> tget (vecs (st t)) vid = Some l -> Forall (val_ok t) l' ->
+  values_are_refs (with_store t (set_vec (st t) vid l')) /\
+  a_vec (abs (with_store t (set_vec (st t) vid l'))) vid = Some (map (absv t) l') /\
+  (forall u, u <> vid -> a_vec (abs (with_store t (set_vec (st t) vid l'))) u = a_vec (abs t) u) /\
+  (forall q, a_pair (abs (with_store t (set_vec (st t) vid l'))) q = a_pair (abs t) q).
+Proof.
+  intros W Hl Hl'. pose proof W as (Hok & Hpairs & Hvecs & Hvc & Hid).
+  set (t' := with_store t (set_vec (st t) vid l')).
+  assert (Ehp : hp t' = hp t) by reflexivity.
+  refine (conj _ (conj _ (conj _ _))).
+  - unfold values_are_refs; refine (conj Hok (conj _ (conj _ (conj _ _)))); cbn [t' with_store hp st set_vec vecs next_id].
+    + intros q a d Hq. destruct (Hpairs _ _ _ Hq). split; apply (target_ok_hp t t'); auto.
+    + intros u lu Hu. destruct (N.eq_dec vid u) as [<-|Hne].
+      * rewrite tget_tset_same in Hu. injection Hu as <-.
+        eapply Forall_impl; [|exact Hl']. intros x. now apply val_ok_hp.
+      * rewrite tget_tset_other in Hu by assumption. specialize (Hvecs _ _ Hu).
+        eapply Forall_impl; [|exact Hvecs]. intros x. now apply val_ok_hp.
+    + intros q u Hq. destruct (N.eq_dec vid u) as [<-|Hne].
+      * rewrite tget_tset_same. discriminate.
+      * rewrite tget_tset_other by assumption. eauto.
+    + intros u Hu. destruct (N.eq_dec vid u) as [<-|Hne].
+      * rewrite (Hid _ Hu) in Hl. discriminate.
+      * rewrite tget_tset_other by assumption. auto.
+  - cbn [abs a_vec t' with_store st set_vec vecs]. rewrite tget_tset_same. reflexivity.
+  - intros u Hne. cbn [abs a_vec t' with_store st set_vec vecs]. rewrite tget_tset_other by congruence.
+    reflexivity.
+  - intros q. now apply abs_pair_hp.
+Qed.
+
+Lemma map_list_set_nat {A B} (f : A -> B) l i x :
+  map f (list_set_nat l i x) = list_set_nat (map f l) i (f x).
+Proof. revert i; induction l as [|y r IH]; intros [|i]; cbn; try reflexivity. now rewrite IH. Qed.
+
+Lemma Forall_list_set_nat {A} (P : A -> Prop) l i x :
+  Forall P l -> P x -> Forall P (list_set_nat l i x).
+Proof.
+  intros Hl Hx. revert i; induction Hl as [|y r Hy Hr IH]; intros [|i]; cbn; auto.
+Qed.
+
+Theorem vector_set_refines s v k x :
+  values_are_refs s -> val_ok s v -> val_ok s k -> val_ok s x -> called_with s [v; k; x] ->
+  match absv s v, aindex (absv s k) with
+  | ALoc (LVec vid), Some i =>
+      exists xs, a_vec (abs s) vid = Some xs /\
+        if i <? N.of_nat (length xs) then
+          exists s', vector_set s = ROk VVoid s' /\
+            a_vec (abs s') vid = Some (list_set_nat xs (N.to_nat i) (absv s x)) /\
+            (forall u, u <> vid -> a_vec (abs s') u = a_vec (abs s) u) /\
+            (forall q, a_pair (abs s') q = a_pair (abs s) q) /\
+            hp s' = hp s /\ values_are_refs s'
+        else exists s', vector_set s = RErr E_OTHER [] s'              (* index out of range *)
+  | _, _ => exists s', vector_set s = RErr E_OTHER [] s'
+  end.
+Proof.
+  intros W Hv Hk Hx H. unfold called_with in H. cbn [len length rev app N.of_nat Pos.of_succ_nat] in H.
+  set (s1 := with_sp s (sp s - 1)).
+  set (s2 := with_sp s1 (sp s1 - 1)).
+  set (s3 := with_sp s2 (sp s2 - 1)).
+  set (s4 := with_sp s3 (sp s3 - 1)).
+  pose proof (stack_top_tail _ _ _ _ H) as H1.
+  pose proof (stack_top_tail _ _ _ _ H1) as H2.
+  pose proof (stack_top_tail _ _ _ _ H2) as H3.
+  assert (Hrun : vector_set s =
+    match aindex (absv s k) with
+    | Some idx =>
+        match absv s v with
+        | ALoc (LVec vid) =>
+            (dom l <- vec_get vid;
+             if len l <=? idx then fail E_OTHER
+             else dom _ <- vec_set vid (vput l idx x); ret VVoid) s4
+        | _ => RErr E_OTHER [] s4
+        end
+    | None => RErr E_OTHER [] s3
+    end).
+  { unfold vector_set. pop_argc_tac H s 3 3 (Some 3). fold s1.
+    rewrite (bind_ok _ _ _ _ _ (pop_raw_top s1 x _ H1)). fold s2.
+    unfold bindM at 1. rewrite (pop_index_spec s2 k _ Hk H2). change (absv s2 k) with (absv s k).
+    destruct (aindex (absv s k)) as [i|]; [|reflexivity]. fold s3.
+    unfold bindM at 1. rewrite (pop_vector_spec s3 v [] Hv H3). change (absv s3 v) with (absv s v).
+    destruct (absv s v) as [w|l|]; try reflexivity. destruct l; reflexivity. }
+  rewrite Hrun.
+  destruct (absv s v) as [w|l|] eqn:Ea.
+  1,3: destruct (aindex (absv s k)); eexists; reflexivity.
+  destruct l as [p|vid|sid|p].
+  1,3,4: destruct (aindex (absv s k)); eexists; reflexivity.
+  destruct (aindex (absv s k)) as [i|]; [|eexists; reflexivity].
+  destruct (vec_registered s v vid W Ea) as (l & Hl & Hal & Hfl).
+  exists (map (absv s) l). split; [exact Hal|].
+  rewrite (bind_ok _ _ _ _ _ (vec_get_ok s4 vid l Hl)).
+  rewrite map_length. unfold len.
+  destruct (i <? N.of_nat (length l)) eqn:Ei.
+  - assert (Ei' : (N.of_nat (length l) <=? i) = false) by (apply N.leb_gt; now apply N.ltb_lt).
+    rewrite Ei'. unfold vput, len. rewrite Ei.
+    assert (Hfl' : Forall (val_ok s4) (list_set l i x)).
+    { unfold list_set. apply Forall_list_set_nat; assumption. }
+    destruct (set_vec_fields s4 vid l (list_set l i x) W Hl Hfl') as (W' & Hvv & Hvo & Hpo).
+    eexists. refine (conj eq_refl (conj _ (conj Hvo (conj Hpo (conj eq_refl W'))))).
+    rewrite Hvv. unfold list_set. now rewrite map_list_set_nat.
+  - assert (Ei' : (N.of_nat (length l) <=? i) = true) by (apply N.leb_le; now apply N.ltb_ge).
+    rewrite Ei'. eexists; reflexivity.
+Qed.
+
+Theorem vector_fill_refines s v x :
+  values_are_refs s -> val_ok s v -> val_ok s x -> called_with s [v; x] ->
+  match absv s v with
+  | ALoc (LVec vid) =>
+      exists xs s', a_vec (abs s) vid = Some xs /\ vector_fill s = ROk VVoid s' /\
+        a_vec (abs s') vid = Some (map (fun _ => absv s x) xs) /\
+        (forall u, u <> vid -> a_vec (abs s') u = a_vec (abs s) u) /\
+        (forall q, a_pair (abs s') q = a_pair (abs s) q) /\
+        hp s' = hp s /\ values_are_refs s'
+  | _ => exists s', vector_fill s = RErr E_OTHER [] s'
+  end.
+Proof.
+  intros W Hv Hx H. unfold called_with in H. cbn [len length rev app N.of_nat Pos.of_succ_nat] in H.
+  set (s1 := with_sp s (sp s - 1)).
+  set (s2 := with_sp s1 (sp s1 - 1)).
+  set (s3 := with_sp s2 (sp s2 - 1)).
+  pose proof (stack_top_tail _ _ _ _ H) as H1.
+  pose proof (stack_top_tail _ _ _ _ H1) as H2.
+  assert (Hrun : vector_fill s =
+    match absv s v with
+    | ALoc (LVec vid) =>
+        (dom l <- vec_get vid; dom _ <- vec_set vid (map (fun _ => x) l); ret VVoid) s3
+    | _ => RErr E_OTHER [] s3
+    end).
+  { unfold vector_fill. pop_argc_tac H s 2 2 (Some 2). fold s1.
+    rewrite (bind_ok _ _ _ _ _ (pop_raw_top s1 x _ H1)). fold s2.
+    unfold bindM at 1. rewrite (pop_vector_spec s2 v [] Hv H2). change (absv s2 v) with (absv s v).
+    destruct (absv s v) as [w|l|]; try reflexivity. destruct l; reflexivity. }
+  rewrite Hrun.
+  destruct (absv s v) as [w|l|] eqn:Ea; try (eexists; reflexivity).
+  destruct l as [p|vid|sid|p]; try (eexists; reflexivity).
+  destruct (vec_registered s v vid W Ea) as (l & Hl & Hal & Hfl).
+  assert (Hfl' : Forall (val_ok s3) (map (fun _ => x) l)).
+  { apply Forall_forall. intros y Hy. apply in_map_iff in Hy. destruct Hy as (_ & <- & _). exact Hx. }
+  destruct (set_vec_fields s3 vid l _ W Hl Hfl') as (W' & Hvv & Hvo & Hpo).
+  exists (map (absv s) l). eexists.
+  refine (conj Hal (conj _ (conj _ (conj Hvo (conj Hpo (conj eq_refl W')))))).
+  - rewrite (bind_ok _ _ _ _ _ (vec_get_ok s3 vid l Hl)). reflexivity.
+  - rewrite Hvv. rewrite !map_map. reflexivity.
+Qed.
